@@ -76,6 +76,10 @@ def synth_index(rng):
             e['spdx_license_key'] = rng.choice([w.upper() for w in words] + ['LicenseRef-a']) + rng.choice(['', '', '-only'])
         if rng.random() < 0.5:
             e['other_spdx_license_keys'] = [rng.choice(words) + '-alias' + rng.choice(['', '2']) for _ in range(rng.randint(0, 2))]
+            if e['other_spdx_license_keys'] and rng.random() < 0.4:
+                # the same alias again in another spelling, or a blank one: harmless within one entry
+                a0 = e['other_spdx_license_keys'][0]
+                e['other_spdx_license_keys'].append(rng.choice([a0.upper(), a0, '', '  ', ' ' + a0 + ' ']))
         if rng.random() < 0.8:
             e['is_exception'] = rng.random() < 0.3
         if rng.random() < 0.7:
@@ -240,6 +244,17 @@ def run(rep, tier, seed):
                 rep.violations.append({'key': 'synthetic-names', 'kind': 'index-names', 'index': sidx, 'text': json.dumps(sidx),
                                        'what': 'Licensings built from a synthetic index: ' + err})
                 continue
+        # independent expectation: the SPDX table builds exactly when it is unambiguous (rule of C14)
+        from props import c14
+        spdx_T = [(e.get('spdx_license_key', ''), [a for a in (e.get('other_spdx_license_keys', []) or [])], bool(e.get('is_exception', '')))
+                  for e in sidx if e.get('spdx_license_key') and not e.get('is_deprecated', False)]
+        if spdx_T and all(' '.join(k.split()) == k for k, _, _ in spdx_T):
+            want_ok = c14.rule(spdx_T)
+            got_ok = (g2[0] == 0)
+            if want_ok != got_ok and g2[0] in (0, 3):
+                rep.violations.append({'key': 'synthetic-build', 'kind': 'index-build', 'index': sidx, 'text': json.dumps(sidx),
+                                       'what': 'build_spdx_licensing accepted=%r but the table is %s' % (got_ok, 'unambiguous' if want_ok else 'ambiguous')})
+                continue
         rep.compared += 1
         def canon(o):
             if o[0] == 2:
@@ -259,6 +274,17 @@ def replay(payload):
         except Exception as ex:   # noqa
             return False, repr(ex)
         return ok, 'parses to %s' % e
+    if payload.get('kind') == 'index-build':
+        from props import c14
+        sidx = payload['index']
+        spdx_T = [(e.get('spdx_license_key', ''), [a for a in (e.get('other_spdx_license_keys', []) or [])], bool(e.get('is_exception', '')))
+                  for e in sidx if e.get('spdx_license_key') and not e.get('is_deprecated', False)]
+        try:
+            le.build_spdx_licensing(sidx)
+            got = True
+        except ValueError:
+            got = False
+        return got == c14.rule(spdx_T), 'build accepted=%r, unambiguous=%r' % (got, c14.rule(spdx_T))
     if payload.get('kind') == 'index-names':
         err = check_synth_names(payload['index'], le)
         return err is None, err or 'every name of the synthetic index is recognised'
